@@ -223,5 +223,8 @@ class TriggerHandler:
 
         Reset the settrace to the previous values.
         """
+        if self._config.NO_TRACE:
+            # we never installed our hooks, so there is nothing of ours to remove
+            return
         sys.settrace(self.__old_sys_trace)
         threading.settrace(self.__old_thread_trace)
